@@ -3,6 +3,7 @@
 Monitor shape: differential against a sequential scan (R-SCAN) on synthetic trajectories (built with the real row
 constructor: any length incl. 0/1, repeated values) and on real fired trajectories."""
 import math
+from fractions import Fraction
 
 import py_ballisticcalc as pb
 from py_ballisticcalc import Calculator, Distance, HitResult, TrajFlag, Unit, Velocity
@@ -56,15 +57,24 @@ def scan_first(vals, q):
     return -1
 
 
-def scan_nearest(times, q, dev):
-    best, bi = None, -1
-    for i, t in enumerate(times):
-        d = abs(t - q)
-        if best is None or d < best:
-            best, bi = d, i
-    if bi >= 0 and best <= dev:
-        return bi
-    return -1
+def scan_nearest(times, q, dev, got=None):
+    """The row minimising |t - q| (earlier row on ties) if that minimum is within dev, else -1 - in exact arithmetic (with rows a
+    few ulps apart a float subtraction from a distant query merges them).  Where two candidates differ by less than the rounding
+    noise of a float subtraction (a query half-way between two rows), or the minimum sits within that noise of dev, either
+    answer satisfies the statement: if `got` is one of them it is returned."""
+    if not times:
+        return -1
+    fq, fd = Fraction(q), Fraction(dev)
+    ds = [abs(Fraction(t) - fq) for t in times]
+    best = min(ds)
+    tol = Fraction(4 * 2.220446049250313e-16 * max(abs(q), max(abs(t) for t in times), 1e-300))
+    preferred = ds.index(best) if best <= fd else -1
+    ok = set()
+    if best <= fd + tol:
+        ok |= {i for i, d in enumerate(ds) if d - best <= tol and d <= fd + tol and (i == 0 or times[i - 1] != times[i])}
+    if best > fd - tol:
+        ok.add(-1)
+    return got if got in ok else preferred
 
 
 def call(fn):
@@ -149,17 +159,16 @@ def check_traj(ctx, rows, case, extra=True, hit=None):
             record("find_index_for_time_point.strict", [q, "(strictly_bigger_or_equal=True only)"],
                    call(lambda: helpers.find_index_for_time_point(hit, q, strictly_bigger_or_equal=True)), ("ok", scan_first(times, q)), inside)
         elif times:
-            best1 = min(abs(t - q) for t in times)
-            want1 = next(i for i, t in enumerate(times) if abs(t - q) == best1) if best1 <= 1 else -1
-            record("find_index_for_time_point.nearest", [q, "(default deviation 1 s)"],
-                   call(lambda: helpers.find_index_for_time_point(hit, q, False)), ("ok", want1), inside)
-        want = scan_nearest(times, q, dev)
+            got1 = call(lambda: helpers.find_index_for_time_point(hit, q, False))
+            record("find_index_for_time_point.nearest", [q, "(default deviation 1 s)"], got1,
+                   ("ok", scan_nearest(times, q, 1, got1[1] if got1[0] == "ok" else None)), inside)
+        got_n = call(lambda: helpers.find_index_for_time_point(hit, q, False, dev))
+        want = scan_nearest(times, q, dev, got_n[1] if got_n[0] == "ok" else None)
         if n >= 2 and want >= 0:
             dmin = abs(times[want] - q)
             if sum(1 for t in times if abs(t - q) == dmin) > 1:
                 ctx.count("nearest_ties")
-        record("find_index_for_time_point.nearest", [q, dev],
-               call(lambda: helpers.find_index_for_time_point(hit, q, False, dev)), ("ok", want), inside)
+        record("find_index_for_time_point.nearest", [q, dev], got_n, ("ok", want), inside)
     # ---- flag / velocity helpers (sequential by construction; still compared)
     for flag in (TrajFlag.ZERO_UP, TrajFlag.ZERO_DOWN, TrajFlag.MACH, TrajFlag.RANGE):
         want = next((i for i, r in enumerate(rows) if r.flag & flag), -1)
@@ -203,15 +212,24 @@ def gen_synthetic(rng):
     for i in range(n):
         if i:
             k = rng.random()
-            if k < 0.25:       # repeated time and distance (event row next to a range row)
+            if k < 0.2:        # repeated time and distance (event row next to a range row)
                 pass
+            elif k < 0.25:     # ... or almost on top of it: distinct times a few ulps / 1e-10 relative apart
+                t_close = rng.choice([math.nextafter(t, math.inf), t * (1 + 4e-10), t + 1e-12]) if t > 0 else 1e-13
+                spec.append([t_close, round(x, 4), round(rng.uniform(-5, 5), 3), round(rng.uniform(100, 3000), 2), rng.choice([1, 2, 4, 9])])
+                t = t_close
+                continue
             elif k < 0.35:     # same distance, later time (vertical flight)
                 t += rng.choice([0.001, rng.uniform(0.001, 0.5)])
             else:
                 t += rng.choice([0.001, rng.uniform(0.001, 0.5)])
                 x += rng.choice([0.5, rng.uniform(0.1, 300.0)])
         flag = rng.choice([8, 8, 8, 1, 2, 4, 9, 12, 0])
-        spec.append([round(t, 6), round(x, 4), round(rng.uniform(-5, 5), 3), round(rng.uniform(100, 3000), 2), flag])
+        t_row = round(t, 6)
+        if spec and t_row < spec[-1][0]:
+            t_row = spec[-1][0]           # (rounding must not step back behind a row a few ulps later than the rounded value)
+        t = t_row                         # the running time is always the time of the last row
+        spec.append([t_row, round(x, 4), round(rng.uniform(-5, 5), 3), round(rng.uniform(100, 3000), 2), flag])
     return spec
 
 
@@ -236,6 +254,11 @@ def queries(rng, spec, rows):
     cand_t += mids[:6] + [m + 1e-7 for m in mids[:2]]
     for t in cand_t:
         tq.append([t, rng.choice([1.0, 0.0, 0.01, rng.uniform(0, 0.3), 100.0])])
+    near = [(a, b) for a, b in zip(pts_t, pts_t[1:]) if 0 < b - a < 1e-8]
+    for ta, tb in near[:3]:
+        # between two nearly coincident times: nearer to the earlier one, half-way, nearer to the later one
+        for f in (0.25, 0.5, 0.75):
+            tq.append([ta + (tb - ta) * f, rng.choice([1.0, 0.01, 100.0])])
     tq.append([0.1, -1.0])
     return dq, tq
 
